@@ -1356,6 +1356,53 @@ def _server_handshake(conn):
     return (True, r[1][0])
 
 
+def _after_rival_upgrade(h, f, sid, s, c, win, rivals):
+    """One of several overlapping handshakes went through: from then on
+    the session is on that WebSocket, whatever becomes of the others."""
+    out = []
+    impl = f.impl
+    t5 = next((t for _, t, d in win.recv_s if d == '5'), None)
+    if t5 is None:
+        return out
+    margin = EPS + 4 * TICK
+    ends = [e['t'] for e in s['events'] if e['ev'] == 'disconnect']
+    t_end = min(ends) if ends else None
+    if win.server_closed or win.client_closed or win.server_seen_close or \
+            win.t_closed_c is not None or win.blackholed:
+        # the carrier itself went away at some point: the session was ending
+        return out
+    others = [u['conn'] for u in c.upgrades] + rivals
+    settled = t5
+    for conn in others:
+        ta = conn.req.t_arrive
+        if conn is win or ta is None or ta <= t5 + margin:
+            continue
+        if t_end is not None and ta >= t_end - margin:
+            continue
+        if conn.accepted:
+            out.append(V('second-upgrade-refused',
+                         '%s|upgrade-admitted-after-upgrade' % impl,
+                         'session %s went to WebSocket at t=%.4f; another '
+                         'upgrade request arriving at t=%.4f was admitted '
+                         'to the handshake' % (sid, t5, ta)))
+    obs = [(t, snap[sid]) for (sq, t, snap) in h.snaps if sid in snap]
+    if sid in h.final['table']:
+        obs.append((f.end, h.final['table'][sid]))
+    for (t, st) in obs:
+        if t <= settled + margin or st.get('closed') or \
+                st.get('closing') or (t_end is not None and
+                                      t >= t_end - margin):
+            continue
+        if not st.get('upgraded'):
+            out.append(V('second-upgrade-refused',
+                         '%s|established-websocket-forgotten' % impl,
+                         'session %s went to WebSocket at t=%.4f and that '
+                         'socket is still open; at t=%.4f the session '
+                         'reports polling' % (sid, t5, t)))
+            break
+    return out
+
+
 def check_upgrade(h, f=None):
     f = f or Facts(h)
     out = []
@@ -1384,6 +1431,10 @@ def check_upgrade(h, f=None):
                              'sockets both succeeded: %r' % (
                                  sid, [[d for _, _, d in conn.sent_s][:4]
                                        for conn in carriers])))
+            if len(carriers) == 1 and impl == 'threaded' or \
+                    len(carriers) == 1 and not f.has_sleep:
+                out.extend(_after_rival_upgrade(h, f, sid, s, c,
+                                                carriers[0], rivals))
             continue
         # observations of the session's transport
         obs = []
